@@ -54,7 +54,7 @@ PROPS["C01"] = {
                  "C01_no_single_byte_table_holds_feff", "C01_decodes_with_the_crates_tables",
                  "C01_decodes_pipeline", "C01_lazy_contract_holds_of_the_pipeline", "C01_supported_single_byte_names_have_tables"],
     "model_targets": ["Model/Decode.vo"],
-    "runs": [detect_run("C01", 260, 4000, bigq=3, bigt=12, midq=1, midt=6),
+    "runs": [detect_run("C01", 260, 4000, bigq=4, bigt=16, midq=1, midt=6),
              {"level": "decode", "args_quick": ["--n", "600"], "args_thorough": ["--n", "20000"]}, NAMES_RUN],
     "search": detect_search("C01"),
     "rule": "detection cases = fixed witnesses + corpus files + generated (corpus slices, texts re-encoded into any supported "
